@@ -193,6 +193,22 @@ def build_shared_features_map(mod: fx.GraphModule) -> Dict[fx.Node, PITFeaturesM
     for n in nodes_to_remove:
         sharing_graph.remove_node(n)
 
+    # the operands of a features concatenation whose result reaches an output unchanged are tied to
+    # the output width as well: tag them as output-connected (repeat for nested concatenations)
+    changed = True
+    while changed:
+        changed = False
+        for c in nx.weakly_connected_components(sharing_graph):
+            if not (any(n in get_graph_outputs(mod.graph) for n in c) or
+                    any(n.meta.get('output_connected', False) for n in c)):
+                continue
+            for n in c:
+                if n.meta['features_concatenate']:
+                    for i in n.all_input_nodes:
+                        if not i.meta.get('output_connected', False):
+                            i.meta['output_connected'] = True
+                            changed = True
+
     # each weakly connected component of the sharing graph must share the same features masker
     sm_dict = {}
     for c in nx.weakly_connected_components(sharing_graph):
